@@ -4,12 +4,12 @@ import json
 import core
 import engines.search as se
 
-SEARCH_TARGETS = ['MM.Props.Exhaustive', 'MM.Props.Greedy', 'MM.Props.SearchTie', 'MM.Props.WithinTie', 'MM.Driver.Wire', 'MM.Model.Admit']
+SEARCH_TARGETS = ['MM.Props.Exhaustive', 'MM.Props.Greedy', 'MM.Props.SearchTie', 'MM.Props.WithinTie', 'MM.Props.SizesTie', 'MM.Driver.Wire', 'MM.Model.Admit']
 SEARCH_TRUST = [
     'Lean 4.33.0 kernel; axioms propext, Classical.choice, Quot.sound (audited per theorem)',
     'hand model MM/Model/Search.lean (+Admit.lean) of tbrmatchedmarkets.py, parametric in the data-dependent tables '
     '(share, optimistic impact, required impact, score); `_constraint_not_satisfied` regenerated from source (T4); the inline '
-    'comparisons of exhaustive_search and of the control size generator regenerated from source (T5) and proved equal to the model\'s (MM/Props/SearchTie.lean); design_within_constraints regenerated from source as a chain of guarded checks (T8) and proved equal to the model\'s withinConstraints (MM/Props/WithinTie.lean)',
+    'comparisons of exhaustive_search and of the control size generator regenerated from source (T5) and proved equal to the model\'s (MM/Props/SearchTie.lean); design_within_constraints regenerated from source as a chain of guarded checks (T8) and proved equal to the model\'s withinConstraints (MM/Props/WithinTie.lean); the integer arithmetic of the size ranges regenerated from source (T12) and proved to be the model\'s (MM/Props/SizesTie.lean)',
     'tables for the correspondence are produced by the real TBRMMDiagnostics/TBRMMScore classes applied to series the harness '
     'aggregates itself from the raw frame; geo_share is read from the real data object (checked separately under C15)',
     'float policy: the model compares exact rationals of the transferred floats; instances whose closest comparison margin '
